@@ -47,11 +47,23 @@ def run_case(rng, tier, case):
                                {'type': 'SimpleContract', 'name': 'amp_src', 'nodes': ['amp'], 'min_cap': q, 'max_cap': q}]
             case.feature('surplus_behind_lossy_link')
     split = gen.pick(rng, ['d', '12h', '6h', '8h']) if want_split else None
+    skip = None
+    if not split and rng.random() < 0.2:
+        # an external system that is not balanced inside the portfolio (documented argument skip_nodes): an import link with time-dependent costs
+        # from a node 'ext' that is listed FIRST / in the middle / last in the portfolio's node order
+        f_ = gen.UNIT_F[spec['grid']['unit']]
+        tgt = sorted({n for a in spec['assets'] if a['type'] != 'StructuredAsset' for n in (a.get('nodes') or [])})[0]
+        imp = {'type': 'Transport', 'name': 'ext_import', 'nodes': ['ext', tgt], 'min_cap': 0., 'max_cap': 3. * f_, 'efficiency': gen.pick(rng, [1., 0.9]),
+               'costs_time_series': sorted(spec['prices'])[0], 'costs_const': 0.5}
+        pos_ = gen.pick(rng, [0, 0, len(spec['assets']) // 2, len(spec['assets'])])
+        spec['assets'].insert(pos_, imp)
+        skip = ['ext']
+        case.feature('skip_nodes:' + ('first' if pos_ == 0 else 'later'))
     for t in gen.asset_types(spec):
         case.feature('type:' + t)
     case.feature('split' if split else 'monolithic')
     case.key = env.spec_key([spec, split]); case.sample = dict(gen.abbreviate(base), split=split); case.spec = {'spec': spec, 'split': split}
-    r = flow.run_portfolio(spec, split=split)
+    r = flow.run_portfolio(spec, split=split, skip_nodes=skip)
     if not r.ok:
         if r.stage == 'extract' and r.res is not None and not isinstance(r.res, str):
             case.check('price.extraction_works', False, split=split, error=flow.describe_error(r)); return
@@ -73,6 +85,8 @@ def run_case(rng, tier, case):
     Md = M[M['type'] == 'd']
     by_ns = {}
     for idx, n_, t_ in zip(Md.index, Md['node'], Md['time_step']):
+        if skip and str(n_) in skip:
+            continue          # (no balance - and no price - for a skipped node)
         by_ns.setdefault((str(n_), int(t_)), set()).add(int(idx))
     inv = {}
     for key, vs in by_ns.items():
@@ -115,6 +129,8 @@ def run_case(rng, tier, case):
             if c not in prices.columns or pd.isnull(prices.loc[times[t], c]):
                 missing.append([n, t])
     case.check('price.reported_for_every_nodal_row', col_ok and not missing, nonvacuous=len(pairs) > 0, missing=missing[:5])
+    if skip and col_ok:
+        case.check('price.none_reported_for_skipped_nodes', not any(('nodal price: ' + n_) in prices.columns for n_ in skip), columns=list(map(str, prices.columns))[:6], skipped=skip)
     if not col_ok:
         return
     nsamp = 8 if tier == 'quick' else 14
@@ -144,8 +160,35 @@ def run_case(rng, tier, case):
             if q not in sel and extra < 4:
                 sel.append(q); extra += 1
     case.stats['pairs_from_independent_marginals'] += extra
-    nonvac = 0
     import eaopack.optimization as EO
+    nonvac = supergradients(rng, tier, case, spec, split, ops, [float(e.ret.value) for e in evs], V0, prices, times, sel, 'price.supergradient')
+    if not split and rng.random() < 0.4:
+        # price scenarios on the SAME problem object (documented use of costs_only): new cost vector, optimise again, extract again - the prices
+        # reported with the second result are marginal values of the second optimum
+        keys_ = sorted(spec['prices'])
+        pr_b = {k_: np.asarray(v_, float) for k_, v_ in gen.gen_prices(rng, r.built.timegrid.T, keys_).items()}
+        for k_ in keys_:
+            if k_.startswith('cap'):
+                pr_b[k_] = r.built.prices[k_]
+        try:
+            with env.quiet():
+                kw_ = {'skip_nodes': skip} if skip else {}
+                c_b = r.built.portfolio.setup_optim_problem(pr_b, r.built.timegrid, costs_only=True, **kw_)
+                r.op.c = np.asarray(c_b, float)
+                res_b = r.op.optimize()
+                out_b = None if isinstance(res_b, str) else eio.extract_output(r.built.portfolio, r.op, res_b, pr_b)
+        except Exception as e:
+            case.check('price.second_scenario_works', False, error='%s: %s' % (type(e).__name__, str(e)[:160])); out_b = None; res_b = 'failed'
+        if out_b is not None and out_b.get('prices') is not None and len(out_b['prices'].columns):
+            case.feature('second_scenario_on_same_problem')
+            sel_b = [pairs[int(i)] for i in rng.permutation(len(pairs))[:5]]
+            supergradients(rng, tier, case, spec, split, [r.op], [float(res_b.value)], float(res_b.value), out_b['prices'], times, sel_b, 'price.supergradient_second_scenario')
+    case.nontrivial = nonvac >= 4
+
+
+def supergradients(rng, tier, case, spec, split, ops, interval_values, V0, prices, times, sel, clause):
+    import eaopack.optimization as EO
+    nonvac = 0
     for (k, row, t, n) in sel:
         c = 'nodal price: ' + n
         if c not in prices.columns or pd.isnull(prices.loc[times[t], c]):
@@ -161,13 +204,13 @@ def run_case(rng, tier, case):
                 if res2 == 'inaccurate':
                     case.event('perturbed_inaccurate')
                 else:
-                    case.check('price.supergradient', True, nonvacuous=False)     # infeasible: inequality holds trivially
+                    case.check(clause, True, nonvacuous=False)     # infeasible: inequality holds trivially
                 continue
-            Vd = V0 - float(evs[k].ret.value) + float(res2.value)
+            Vd = V0 - interval_values[k] + float(res2.value)
             tol = 2e-5 * (1 + abs(V0)) + 1e-6 * abs(p * d)
             ok = Vd <= V0 + p * d + tol
             if abs(p) > 1e-9:
                 nonvac += 1
-            case.check('price.supergradient', ok, nonvacuous=abs(p) > 1e-9, node=n, step=t, d=d, price=p, V0=V0, Vd=Vd, bound=V0 + p * d, excess=Vd - (V0 + p * d),
+            case.check(clause, ok, nonvacuous=abs(p) > 1e-9, node=n, step=t, d=d, price=p, V0=V0, Vd=Vd, bound=V0 + p * d, excess=Vd - (V0 + p * d),
                        split=split, structured=any('Structured' in x for x in gen.asset_types(spec)))
-    case.nontrivial = nonvac >= 4
+    return nonvac
